@@ -135,4 +135,12 @@ PROPS = {
         ],
         "assumptions": ["every processor other than both/bothE has the linear read-write-close shape (aggregate's internal fan-out consumes concurrently and is treated as one step writing at end of input)", "kvgraph scans stop on context cancellation (observed, not modelled beyond the cancel step)", "mark/jump cycles are excluded here (C12)"],
     },
+    "C12": {
+        "trusted_base": [
+            "Model/Loop.v is a hand-written model of engine/logic/jump.go (JumpMark.Process closing phase, Jump.Process) with engine/queue/queue.go as an unbounded FIFO, ONE jump per mark; the loop body and the jump are one FIFO segment (a traveler popped at its end has gone through the body and the jump's test), justified by C13's chain theorem for order-preserving steps; the mark's decisions on silence are enabled at all times",
+            "busy-polling iterations of the mark that change nothing are not steps of the model: termination of the real loop additionally needs the Go scheduler to run every runnable goroutine eventually",
+            "correspondence by observable behaviour: real loops on real graphs under GOMAXPROCS 1 and 16 against loop_spec, and the executable protocol model under two schedulers against loop_spec on the same inputs",
+        ],
+        "assumptions": ["every step of the loop body forwards signals in FIFO order with the travelers (true of the linear steps; both()/bothE() forward signals ahead of buffered travelers and are outside this model)", "marks with several jumps, and nested loops, are outside the model"],
+    },
 }
